@@ -93,10 +93,32 @@ def build(variant, tag=None, guard=None, extra_cflags=()):
     cflags = list(cflags) + list(extra_cflags)
     if guard:
         cflags.append("-D" + GUARD)
-    outdir = os.path.join(BUILD_ROOT, tag or variant)
+    # one output directory per (variant, source-tree hash): a rebuild after an edit never replaces binaries a concurrently
+    # running check is still using; older directories of the variant are pruned
+    want = _tree_hash((variant, cc, cflags, ldflags, guard))
+    base = tag or variant
+    outdir = os.path.join(BUILD_ROOT, "%s-%s" % (base, want[:12]))
+    os.makedirs(BUILD_ROOT, exist_ok=True)
+    olds = sorted((d for d in os.listdir(BUILD_ROOT) if d.startswith(base + "-") and os.path.isdir(os.path.join(BUILD_ROOT, d)) and d != os.path.basename(outdir)),
+                  key=lambda d: os.path.getmtime(os.path.join(BUILD_ROOT, d)))
+    for d in olds[:-2]:
+        shutil.rmtree(os.path.join(BUILD_ROOT, d), ignore_errors=True)
     os.makedirs(outdir, exist_ok=True)
+    # checks may run concurrently: one builder per variant directory at a time
+    import fcntl
+    lockf = open(os.path.join(BUILD_ROOT, ".lock_%s" % (tag or variant)), "w")
+    fcntl.flock(lockf, fcntl.LOCK_EX)
+    try:
+        return _build_locked(variant, outdir, cc, cflags, ldflags, guard)
+    finally:
+        fcntl.flock(lockf, fcntl.LOCK_UN)
+        lockf.close()
+
+
+def _build_locked(variant, outdir, cc, cflags, ldflags, guard):
     stamp = os.path.join(outdir, ".stamp")
     want = _tree_hash((variant, cc, cflags, ldflags, guard))
+    use_wrap = variant in ("rel", "noomp", "clangomp")
     paths = {
         "dir": outdir,
         "kalign": os.path.join(outdir, "kalign"),
